@@ -89,6 +89,7 @@ func verifC04Validate() {
 	verifBaseOf(sp.Remote).setLastReceived(verifNow().Add(-silence))
 	verifAssume(verifBaseOf(sp.Remote).lastReceived.Load() != 0) // 0 is the 'never received' sentinel (an instant exactly at timeRef)
 	before := w.snap()
+	verifStepBegin()
 	ok := a.validateSelectedPair()
 	after := w.snap()
 	verifAssert(ok, "selected-pair-present")
@@ -234,6 +235,7 @@ func verifC04Update() {
 		}
 	}
 	n0 := len(w.notifiedStates())
+	verifStepBegin()
 	a.updateConnectionState(next)
 	got := w.notifiedStates()
 	if cur == next {
